@@ -5,6 +5,7 @@ from ..loops import segments, Head
 from ..nativeio import differential
 
 ID = "C02"
+FRAME_SENSITIVE = True        # the statement relates several calls / call histories: a certain write to state that outlives a call is a violation even where the engine cannot follow its effect
 MIN_OBLIGATIONS = 40
 GPF = 'Pervaporation.get_partial_fluxes_from_permeate_composition'
 CPF = 'Pervaporation.calculate_partial_fluxes'
@@ -144,6 +145,8 @@ def obligations(cx):
     lockstep.scale_lemma(cx, ctr)
     cx.assume_note("hypothesis of the statement: local non-expansiveness of the iteration map (C02c); termination is C10")
     cx.assume_note("get_partial_pressures and Membrane.get_permeance by contract (pure functions of their argument leaves); class invariants of the inputs (0<=x<=1, permeance >= 0)")
+    cx.no_hidden_state(function='Pervaporation.calculate_partial_fluxes')
+
 
 
 def replay_case(r):
